@@ -21,7 +21,7 @@ type vNode struct {
 	layout string
 	attrs  []vKV // own attributes in order (key, integer value)
 	skip   int
-	nctx   int
+	ctxk   []string // registered context keys in order
 	wr     io.Writer // nil = never given a writer
 }
 
@@ -50,7 +50,13 @@ func vCheckTree(ns []vNode) {
 			}
 		}
 		vAssert(l.Skip() == n.skip, "C10: skip count is this logger's own")
-		vAssert(len(l.contextKeys) == n.nctx, "C10: context keys are this logger's own")
+		vAssert(len(l.contextKeys) == len(n.ctxk), "C10: context keys are this logger's own")
+		for j, k := range n.ctxk {
+			if j < len(l.contextKeys) {
+				got, _ := l.contextKeys[j].(string)
+				vAssert(got == k, "C10: context keys are this logger's own (no other logger's operation rewrote them)")
+			}
+		}
 		if n.wr == nil {
 			vAssert(l.writer == nil, "C10: a logger never given writers has none")
 		} else {
@@ -222,13 +228,13 @@ func VH_C10() {
 			withOp = true
 			vAssert(isNew(ret), "C10: With... returns a newly created logger")
 			t = newChild(ret)
-			ns[t].nctx++
+			ns[t].ctxk = append(ns[t].ctxk, "ck")
 		case 16:
 			ret = X.SetContextKeys("ck", "cj")
-			ns[t].nctx += 2
+			ns[t].ctxk = append(ns[t].ctxk, "ck", "cj")
 		case 17:
 			ret = X.ResetContextKeys()
-			ns[t].nctx = 0
+			ns[t].ctxk = nil
 		case 18:
 			w := &recW{k, rec}
 			ret = X.WithWriter(w)
@@ -350,12 +356,25 @@ func VH_C10S() {
 		{l: b, parent: 0, name: b.Name(), level: lv, json: js, color: cl, attrs: []vKV{{"s", 7}}},
 		{l: c, parent: -1, name: "c", level: c.Level(), json: c.JSONMode(), color: c.ColorMode(), attrs: []vKV{{"s", 7}}},
 	}
+	sharedKeys := make([]any, 1, 4)
+	sharedKeys[0] = "sk"
+	a.SetContextKeys(sharedKeys...)
+	b.SetContextKeys(sharedKeys...)
+	ns[1].ctxk, ns[2].ctxk = []string{"sk"}, []string{"sk"}
 	vCheckTree(ns)
 	steps := vParam("steps", 2)
 	for k := 0; k < steps; k++ {
 		x := vChoose(len(ns))
 		X := ns[x].l
-		switch vChoose(4) {
+		switch vChoose(6) {
+		case 4:
+			// the same prepared key list (spare capacity) spread into several loggers
+			X.SetContextKeys(sharedKeys...)
+			ns[x].ctxk = append(ns[x].ctxk, "sk")
+		case 5:
+			key := "k" + string(rune('0'+k))
+			X.SetContextKeys(key)
+			ns[x].ctxk = append(ns[x].ctxk, key)
 		case 0:
 			X.SetAttrs(NewAttr("k", 10*k+1))
 			ns[x].attrs = append(ns[x].attrs, vKV{"k", 10*k + 1})
@@ -372,6 +391,7 @@ func VH_C10S() {
 		}
 		vCheckTree(ns)
 		vAssert(vAnd(len(shared) == 1, shared[0].Key() == "s"), "C10: the caller's prepared attributes are left as given")
+		vAssert(len(sharedKeys) == 1 && sharedKeys[0] == "sk", "C10: the caller's key list is left as given")
 	}
 	vCover("C10S:done")
 }
@@ -401,7 +421,7 @@ func VH_C10I() {
 		n.utc = int(vInt())
 		vAssume(vAnd(n.utc >= 0, n.utc <= 2))
 		if vBool() { // profile
-			n.layout, n.skip, n.nctx = time.Kitchen, 1, 1
+			n.layout, n.skip, n.ctxk = time.Kitchen, 1, []string{"ck"}
 			n.attrs = []vKV{{"p", 100 + i}}
 			l.attrs = append(l.attrs, NewAttr("p", 100+i))
 			l.contextKeys = append(l.contextKeys, "ck")
@@ -444,7 +464,7 @@ func VH_C10I() {
 		ns[x].skip = 2
 	case 7:
 		ret = X.ResetContextKeys()
-		ns[x].nctx = 0
+		ns[x].ctxk = nil
 	case 8:
 		w := &recW{9, rec}
 		ret = X.SetWriter(w)
